@@ -161,11 +161,16 @@ let parse_prog (tok : string) : op list =
       | _ -> failwith "bad op") (String.split_on_char '/' tok)
 
 let measure_int c (h : handle) : int = int_of_z (measure c.c_kind h.h_val)
+(* value of a series as printed in concurrent observations: counter value, signed gauge value, histogram count/sum/buckets *)
+let obs_val c (h : handle) : string =
+  if c.c_kind = KHist then
+    decimal_of_z h.h_val.v_cnt ^ "/" ^ decimal_of_z h.h_val.v_main ^ "/" ^ String.concat "_" (List.map decimal_of_z h.h_val.v_bk)
+  else string_of_int (measure_int c h)
 
 let observe (c : cfg) (setup : op list) (setup_out : res list) (progs : op list list) (x : sys) : string =
   let s = x.sh in
   let live = List.sort compare (List.concat (List.map (fun (_, id) ->
-      match get_handle s id with Some h -> [(token_of_tuple h.h_tuple, measure_int c h, int_of_nat id)] | None -> []) s.smap)) in
+      match get_handle s id with Some h -> [(token_of_tuple h.h_tuple, obs_val c h, int_of_nat id)] | None -> []) s.smap)) in
   let seen = Hashtbl.create 8 in
   List.iter (fun (_, _, id) -> Hashtbl.replace seen id ()) live;
   let show (outs : res list) (ops : op list) : string =
@@ -180,7 +185,7 @@ let observe (c : cfg) (setup : op list) (setup_out : res list) (progs : op list 
            | Some h ->
              let cls = if in_map s id then "l" else if h.h_stale then "s" else "o" in
              let cls = (match o with OResolve t when not (tuple_eqb h.h_tuple t) -> "X" | _ -> cls) in
-             cls ^ string_of_int (measure_int c h))) outs ops in
+             cls ^ obs_val c h)) outs ops in
     if parts = [] then "-" else String.concat "." parts in
   let sp = "S=" ^ show setup_out setup in
   let tps = List.mapi (fun i (th, p) -> "T" ^ string_of_int i ^ "=" ^ show (List.rev th.t_out) p)
@@ -190,7 +195,7 @@ let observe (c : cfg) (setup : op list) (setup_out : res list) (progs : op list 
       | Some h -> a + measure_int c h | None -> a) seen 0 in
   let acc = acc + int_of_z s.drops + int_of_z s.unknown + int_of_z s.stales in
   let total = List.fold_left (fun a p -> a + int_of_z (prog_weight c.c_kind p)) 0 (setup :: progs) in
-  "m=" ^ String.concat "+" (List.map (fun (t, v, _) -> t ^ ":" ^ string_of_int v) live) ^
+  "m=" ^ String.concat "+" (List.map (fun (t, v, _) -> t ^ ":" ^ v) live) ^
   ";c=" ^ decimal_of_z s.cnt ^ ";d=" ^ decimal_of_z s.drops ^ ";u=" ^ decimal_of_z s.unknown ^
   ";s=" ^ decimal_of_z s.stales ^ ";lost=" ^ string_of_int (if c.c_kind = KGauge then 0 else total - acc) ^ ";" ^ String.concat ";" (sp :: tps)
 
